@@ -398,3 +398,62 @@ func OnIssue(p any) {
 	delete(inPool, k)
 	poolMu.Unlock()
 }
+
+// PoolPut / PoolGet stand for (*sync.Pool).Put / Get in lib/query (block scopes, node scopes, key buffers, join
+// records): with the tracking on, an object put into a pool while it still sits there is recorded as a double
+// release - two later Gets would hand the same object to two owners.
+func PoolPut(p *sync.Pool, x any) {
+	if poolTrack {
+		if k := poolKey(reflect.ValueOf(x), 0); k != 0 {
+			who := csvqCaller()
+			poolMu.Lock()
+			if first, ok := inPool[k]; ok {
+				doubleFrees = append(doubleFrees, who+" after "+first.who)
+			} else {
+				inPool[k] = pooled{x, who}
+			}
+			poolMu.Unlock()
+		}
+	}
+	p.Put(x)
+}
+
+func PoolGet(p *sync.Pool) any {
+	x := p.Get()
+	if poolTrack {
+		if k := poolKey(reflect.ValueOf(x), 0); k != 0 {
+			poolMu.Lock()
+			delete(inPool, k)
+			poolMu.Unlock()
+		}
+	}
+	return x
+}
+
+// poolKey is the identity of a pooled object: the address a pointer, map or slice refers to; for a struct (the
+// scopes are structs of maps) that of its first field.
+func poolKey(v reflect.Value, depth int) uintptr {
+	if !v.IsValid() || depth > 4 {
+		return 0
+	}
+	switch v.Kind() {
+	case reflect.Pointer, reflect.Map:
+		if v.IsNil() {
+			return 0
+		}
+		return v.Pointer()
+	case reflect.Slice:
+		if v.IsNil() || v.Cap() == 0 {
+			return 0
+		}
+		return v.Pointer()
+	case reflect.Interface:
+		return poolKey(v.Elem(), depth+1)
+	case reflect.Struct:
+		if v.NumField() == 0 {
+			return 0
+		}
+		return poolKey(v.Field(0), depth+1)
+	}
+	return 0
+}
